@@ -141,3 +141,20 @@ Theorem parse_never_raises_skeleton :
     parse_never_raises_skel_statement St leaf flag add_comment on_unknown charset_commit st0.
 Proof. exact parse_never_raises_skeleton_lemma. Qed.
 Print Assumptions parse_never_raises_skeleton.
+
+(* ---- with the PP builder's engine model: the media-query-list leaf is PROVED ----------------
+   P'' : the LMediaQuery entry of the leaf table is ProdParserBridge.media_leaf (MediaList built by the
+   ProdParser engine model on the head of an @media rule); it returns on every run cut out of a tokenized
+   text (ProdParserBridge.media_leaf_returns_tokenized).  Remaining hypothesis other_leaves_total: selector
+   list, property (name, value, priority, profiles validation), @import / @namespace / @page / @font-face /
+   @variables bodies.                                                                              *)
+From CssV Require Import ParseSkelPP.
+From CssV Require ProdParser ProdParserBridge.
+Theorem parse_never_raises_skeleton_pp :
+  forall (St : Type) leaf flag add_comment on_unknown charset_commit
+         (mq_commit : St -> bool -> list ProdParser.item -> St) (st0 : St),
+    media_leaf_is_pp St leaf mq_commit ->
+    other_leaves_total St leaf ->
+    parse_never_raises_skel_statement St leaf flag add_comment on_unknown charset_commit st0.
+Proof. exact parse_never_raises_skeleton_pp_lemma. Qed.
+Print Assumptions parse_never_raises_skeleton_pp.
